@@ -18,6 +18,10 @@ pub enum Op {
     /// dec_length beyond zero / inc_length beyond u64::MAX: the length stops at the bound
     DecLenBeyond,
     IncLenBeyond,
+    /// 15 inc(1) through a second handle that then stays alive and idle (the bar's update limiter lets ten
+    /// of them through within one instant), then tick() through the first handle: the steps count for
+    /// every handle
+    IncViaClone15,
     Finish,
     FinishMsg,
     /// finish_with_message("") / abandon_with_message(""): the supplied (empty) message replaces the old one
@@ -118,10 +122,10 @@ impl Hist for C04s {
         if prefix.contains(&Op::DropBar) {
             return vec![];
         }
-        vec![Op::Burn, Op::Idle, Op::Tick, Op::Inc, Op::Msg(0), Op::Msg(1), Op::SetLen, Op::DecLenBeyond, Op::IncLenBeyond, Op::Finish, Op::FinishMsg, Op::FinishMsgEmpty, Op::AbandonMsgEmpty, Op::FinishClear, Op::Abandon, Op::AbandonMsg, Op::FinishUsingStyle, Op::DropBar, Op::Iter(0), Op::Iter(1), Op::Iter(3), Op::IterFold(0), Op::IterFold(3), Op::Reset, Op::Println(0), Op::Println(1), Op::SuspendOut, Op::SuspendEmpty]
+        vec![Op::Burn, Op::Idle, Op::Tick, Op::Inc, Op::Msg(0), Op::Msg(1), Op::SetLen, Op::DecLenBeyond, Op::IncLenBeyond, Op::IncViaClone15, Op::Finish, Op::FinishMsg, Op::FinishMsgEmpty, Op::AbandonMsgEmpty, Op::FinishClear, Op::Abandon, Op::AbandonMsg, Op::FinishUsingStyle, Op::DropBar, Op::Iter(0), Op::Iter(1), Op::Iter(3), Op::IterFold(0), Op::IterFold(3), Op::Reset, Op::Println(0), Op::Println(1), Op::SuspendOut, Op::SuspendEmpty]
             .into_iter()
             // (the bar reference is exact for small lengths only)
-            .filter(|o| !(self.bar && *o == Op::IncLenBeyond))
+            .filter(|o| !(self.bar && *o == Op::IncLenBeyond) && ((self.bar && self.hz.is_none()) || *o != Op::IncViaClone15))
             .collect()
     }
 
@@ -134,6 +138,7 @@ impl Hist for C04s {
             Some(hz) => ProgressDrawTarget::term_like_with_hz(spy.boxed(), hz),
         };
         let tpl = format!("{}{}", if self.bar { "{bar:10} " } else { "" }, if self.two_line { "{pos}/{len} {msg}\n+{pos}" } else { "{pos}/{len} {msg}" });
+        let held: std::sync::Mutex<Vec<ProgressBar>> = Default::default();
         let mut pb = Some(ProgressBar::with_draw_target(Some(5), target).with_style(ProgressStyle::with_template(&tpl).unwrap().progress_chars("#>-")).with_finish(fin(self.fin)));
         let mut rf = Rf { pos: 0, len: 5, msg: String::new(), finished: false, hidden: false };
         let shown: Vec<String> = hist.iter().map(|o| format!("{:?}", o)).collect();
@@ -197,10 +202,21 @@ impl Hist for C04s {
                         b.suspend(|| spy2.raw_write_line("out"))
                     }
                     Op::SuspendEmpty => b.suspend(|| ()),
+                    Op::IncViaClone15 => {
+                        let c = b.clone();
+                        for _ in 0..15 {
+                            c.inc(1);
+                        }
+                        held.lock().unwrap().push(c);
+                        // (the bar's update limiter has refused the last of them: an ordinary redraw through
+                        // the first handle follows)
+                        b.tick();
+                    }
                 }
             });
             drop(bar);
             if *op == Op::DropBar {
+                held.lock().unwrap().clear();
                 let b = pb.take();
                 if let Err(p) = catch(move || drop(b)) {
                     return Verdict::Bad(Violation { class: format!("panic: {}", panic_class(&p)), config: self.config(), history: shown[..=i].to_vec(), detail: p });
@@ -217,6 +233,7 @@ impl Hist for C04s {
                 Op::Inc => rf.pos = rf.pos.wrapping_add(1),
                 Op::Msg(k) => rf.msg = if *k == 0 { "m".into() } else { "a longer message that wraps!!".into() },
                 Op::SetLen => rf.len = 9,
+                Op::IncViaClone15 => rf.pos = rf.pos.wrapping_add(15),
                 Op::DecLenBeyond => rf.len = rf.len.saturating_sub(20),
                 Op::IncLenBeyond => rf.len = rf.len.saturating_add(u64::MAX - 3),
                 Op::Finish => {
